@@ -262,7 +262,9 @@ def worker(ctx):
         if i % 4 == 0:
             star = rng.choice(["SELECT * EXCEPT (a, b) FROM t", "SELECT t.* REPLACE (a + 1 AS a) FROM t", "SELECT * EXCLUDE (a) FROM t AS t",
                                "SELECT x, * ILIKE 'c%' FROM t", "SELECT * EXCLUDE (a) RENAME (b AS c) FROM t", "SELECT COUNT(*), t.* FROM t",
-                               "SELECT * EXCEPT (a) REPLACE (b * 2 AS b) FROM (SELECT * FROM u) AS t"])
+                               "SELECT * EXCEPT (a) REPLACE (b * 2 AS b) FROM (SELECT * FROM u) AS t",
+                               'SELECT "my_func"(a, b + 1), "g"() FROM t', 'SELECT s."fn"(x), "f"("c") AS r FROM t AS "T2"',
+                               "SELECT `fn`(a, 'x'), `t`.`c` FROM `t`"])
             variants.append(respace(rng, star, uni=False))
         if i % 5 == 0:
             # unterminated lexemes: TokenError must point at the text it quotes
